@@ -160,6 +160,74 @@ End PagingProofs.
 
 Ltac divfacts x d := pose proof (Nat.div_mod x d); pose proof (Nat.mod_upper_bound x d).
 
+(* the page loop against ANY server *)
+Section PagingAnyServer.
+  Context {A : Type}.
+  Variable eqb : A -> A -> bool.
+  Hypothesis eqb_spec : forall x y, eqb x y = true <-> x = y.
+
+  Lemma page_step_pg cap (st : pstate) items pages :
+    let r := page_step eqb cap st items pages in
+    (snd r = true -> pg (fst r) = S (pg st) /\ pg st < page_limit cap pages) /\
+    (snd r = false -> pg (fst r) = pg st).
+  Proof.
+    unfold page_step. destruct (is_nil items); cbn [fst snd pg disc]; [split; [intros HH; discriminate HH|auto]|].
+    destruct (Nat.eqb _ _); cbn [fst snd pg disc]; [|split; [intros HH; discriminate HH|auto]].
+    destruct (K <=? length items); cbn [fst snd pg disc]; [|split; [intros HH; discriminate HH|auto]].
+    destruct (pg st <? page_limit cap pages) eqn:E; cbn [fst snd pg disc]; [|split; [intros HH; discriminate HH|auto]].
+    apply Nat.ltb_lt in E. split; auto. intros HH; discriminate HH.
+  Qed.
+
+  (* with the cap, whatever the storing node answers, the client stops asking after at most c+1 requests *)
+  Theorem walk_capped_terminates c (srv : nat -> list A * nat) : forall fuel st acc asked,
+    pg st <= c -> c + 2 <= fuel + pg st ->
+    let r := walk eqb (Some c) fuel srv st acc asked in
+    snd r = true /\ length (snd (fst r)) + pg st <= length asked + c + 1.
+  Proof.
+    induction fuel as [|fuel IH]; intros st acc asked Hp Hf; [lia|].
+    cbn [walk]. destruct (srv (pg st)) as [items pages].
+    pose proof (page_step_pg (Some c) st items pages) as Hs. cbv zeta in Hs.
+    destruct (page_step eqb (Some c) st items pages) as [st' again]. cbn [fst snd] in Hs.
+    destruct Hs as (Hs1 & Hs2). destruct again.
+    - destruct (Hs1 eq_refl) as (E1 & E2). cbn [page_limit] in E2.
+      assert (Hp' : pg st' <= c) by lia. assert (Hf' : c + 2 <= fuel + pg st') by lia.
+      specialize (IH st' (fst (yield_new eqb acc items)) (asked ++ [pg st]) Hp' Hf').
+      cbv zeta in IH. destruct IH as (I1 & I2). split; auto.
+      rewrite app_length in I2. simpl in I2. lia.
+    - cbn [fst snd]. split; auto. rewrite app_length. simpl. lia.
+  Qed.
+
+  (* the loop before fac7223: a fresh full page that announces one more page always makes it ask again *)
+  Lemma page_step_uncapped_again (st : pstate) items pages :
+    items <> [] -> NoDup items -> (forall x, In x items -> ~ In x (disc st)) ->
+    K <= length items -> pg st < pages ->
+    page_step eqb None st items pages = ({| pg := S (pg st); disc := disc st ++ items |}, true).
+  Proof.
+    intros Hne Hnd Hfr Hk Hp. unfold page_step. destruct items as [|x items]; [congruence|]. cbn [is_nil].
+    rewrite (union_set_fresh eqb eqb_spec) by auto. rewrite app_length, Nat.eqb_refl.
+    apply Nat.leb_le in Hk. rewrite Hk. cbn [page_limit andb].
+    apply Nat.ltb_lt in Hp. now rewrite Hp.
+  Qed.
+
+  Lemma page_step_capped_stops c (st : pstate) items pages :
+    c <= pg st -> snd (page_step eqb (Some c) st items pages) = false.
+  Proof.
+    intro Hc. pose proof (page_step_pg (Some c) st items pages) as Hs. cbv zeta in Hs.
+    destruct (page_step eqb (Some c) st items pages) as [st' again]. cbn [fst snd] in *.
+    destruct again; auto. destruct Hs as (Hs1 & _). destruct (Hs1 eq_refl) as (_ & E). cbn [page_limit] in E. lia.
+  Qed.
+End PagingAnyServer.
+
+Lemma paging_terminates_any_server (srv : nat -> list N * nat) (fuel : nat) :
+  MAX_VALUE_PAGES + 2 <= fuel ->
+  let r := walk N.eqb real_cap fuel srv {| pg := 0; disc := [] |} [] [] in
+  snd r = true /\ length (snd (fst r)) <= MAX_VALUE_PAGES + 1.
+Proof.
+  intro H. cbv zeta. unfold real_cap.
+  pose proof (walk_capped_terminates N.eqb MAX_VALUE_PAGES srv fuel {| pg := 0; disc := [] |} [] []) as W.
+  cbn [pg length] in W. cbv zeta in W. destruct W as (W1 & W2); [lia|lia|]. split; auto. lia.
+Qed.
+
 Lemma pages_announced_le n : pages_announced n <= n.
 Proof. unfold pages_announced, K. divfacts (n + 8 - 1) 8. lia. Qed.
 
